@@ -31,6 +31,8 @@ CONFIGS = {
         dict(name="depth", MaxItems=9, MaxDepth=4, Reps="{1}", FVariants='{"plain"}', SVariants='{"plain"}', CVariants='{"if"}', Allowed='{"F","X","S"}', layouts=[0]),
         dict(name="mixed", MaxItems=6, MaxDepth=3, Reps="{2}", FVariants='{"plain", "arrow", "lineabove"}', SVariants='{"plain"}', CVariants='{"try"}', Allowed='{"F","K","C","E","X","S","R"}', layouts=[2]),
         dict(name="wrapped", MaxItems=8, MaxDepth=3, Reps="{1}", FVariants='{"plain", "prefix"}', SVariants='{"plain"}', CVariants='{"if"}', Allowed='{"F","K","W","X","S"}', layouts=[0]),
+        # a call-wrapped class inside a method of a call-wrapped class: the nested header search two levels deep
+        dict(name="wrapped2", MaxItems=10, MaxDepth=4, Reps="{1}", FVariants='{"plain"}', SVariants='{"plain"}', CVariants='{"if"}', Allowed='{"F","K","W","X","S"}', layouts=[0], only_wrapped=2),
         dict(name="thresholds", MaxItems=4, MaxDepth=2, Reps="{1, 13, 14, 15, 16, 28, 29, 30, 31, 58, 59, 60, 61, 75}", FVariants='{"plain"}', SVariants='{"plain"}', CVariants='{"if"}', Allowed='{"F","X","S"}', layouts=[0]),
     ],
     "thorough": [
@@ -225,6 +227,8 @@ def run(tier: str) -> int:
         for a, c in m.coverage.items():
             cover[a] = [cover.get(a, [0, 0])[0] + c[0], cover.get(a, [0, 0])[1] + c[1]]
         chunks = [c for c in dump_chunks(m.dump) if "done = TRUE" in c]
+        if cfg.get("only_wrapped"):  # keep the programs this configuration exists for
+            chunks = [c for c in chunks if c.count('"wrapped"') >= cfg["only_wrapped"]]
         res = pmap(analyse_chunk, [(c, cfg["layouts"]) for c in chunks], timeout=120, chunk=64)
         bad = 0
         na = 0
